@@ -154,7 +154,7 @@ func genOCI(r *rand.Rand) *oci.Spec {
 			s.Annotations["bytes"] = "a\xc3(b"
 		}
 		p.User.UID = uint32([]int{0, 0, 1000, 65534}[r.Intn(4)])
-		p.User.GID = uint32([]int{0, 0, 1000, 100}[r.Intn(4)])
+		p.User.GID = uint32([]int{0, 0, 1000, 100, 5, 44}[r.Intn(6)])
 		for i := 0; i < r.Intn(4); i++ {
 			p.User.AdditionalGids = append(p.User.AdditionalGids, uint32([]int{0, 5, 10, 44, 5}[r.Intn(5)]))
 		}
